@@ -145,7 +145,11 @@ class Exec:
             # the collider is constructed from what the manager hands out (for a frame attached directly to "origin"
             # that is the registered array itself)
             A2B = tm.get_transform(op["frame"], "origin")
+            shared = e.get("ctor", {}).get(op.get("share")) if op.get("share") is not None else None
+            if shared is not None:
+                A2B = shared  # the caller constructs this collider from the array object it used for another one
             c = build_from(op["spec"], A2B) if op["spec"]["kind"] != "hull" else build(op["spec"], A2B)
+            e.setdefault("ctor", {})[op["frame"]] = A2B
             bvh.add_collider(op["frame"], c)
             bvh.self_collision_whitelists_[op["frame"]] = list(op["wl"])
             for f in op.get("wl_into", []):  # asymmetric on purpose: others may or may not whitelist the new frame
